@@ -1,3 +1,211 @@
-From GV Require Import Lib.Trace Model.Addr.
-Example C16_placeholder : parse_proto_addr [116;99;112;58;47;47;97] = POk s_tcp [97].
-Proof. vm_compute. reflexivity. Qed.
+(* C16 — address parsing and option normalisation are total and exact.
+   Statements only; proofs live in Proofs/AddrProofs.v.  The model
+   (Model/Addr.v) is a transcription of gnet.parseProtoAddr on top of the Go
+   1.23.5 net/url.Parse / path.Join code path; the predicates host_ok,
+   grammar_hostb, scheme_ok, path_ok are boolean functions on byte strings
+   defined in Spec/AddrGrammar.v.  :// is [58; 47; 47]. *)
+From GV Require Import Lib.Trace Model.Arith Model.Addr Spec.AddrGrammar Proofs.ArithProofs Proofs.AddrProofs.
+Open Scope Z_scope.
+Open Scope list_scope.
+
+(* every byte string: never a panic; a url.Parse error is passed on; otherwise
+   the invalid-address error exactly for an empty scheme / an empty host or a
+   non-empty path on tcp*/udp* / nothing after unix://, the unsupported-protocol
+   error exactly for any other non-empty scheme, and a success carries one of
+   the seven schemes and a non-empty endpoint (the host for tcp*/udp*, the
+   cleaned joined path for unix) *)
+Theorem C16_parse_total_classified : forall a : bytes,
+  parse_proto_addr a <> PPanic /\
+  ((url_parse (escape_pct a) = RErr /\ parse_proto_addr a = PErr EUrl) \/
+   (exists u, url_parse (escape_pct a) = ROk u /\
+     (parse_proto_addr a = PErr EInvalid <->
+        u_scheme u = [] \/
+        (In (u_scheme u) inet_schemes /\ (u_host u = [] \/ u_path u <> [])) \/
+        (u_scheme u = s_unix /\ u_host u = [] /\ u_path u = [])) /\
+     (parse_proto_addr a = PErr EUnsupported <->
+        u_scheme u <> [] /\ ~ In (u_scheme u) (s_unix :: inet_schemes)) /\
+     parse_proto_addr a <> PErr EUrl /\
+     (forall s ep, parse_proto_addr a = POk s ep ->
+        s = u_scheme u /\ In s (s_unix :: inet_schemes) /\ ep <> [] /\
+        (In s inet_schemes -> ep = u_host u /\ u_path u = []) /\
+        (s = s_unix -> ep = path_join (u_host u) (u_path u))))).
+Proof. exact parse_total_classified. Qed.
+Print Assumptions C16_parse_total_classified.
+
+Theorem C16_parse_result_shape : forall a : bytes,
+  (exists e, parse_proto_addr a = PErr e) \/
+  (exists s ep, parse_proto_addr a = POk s ep /\ In s (s_unix :: inet_schemes) /\ ep <> []).
+Proof. exact parse_result_shape. Qed.
+Print Assumptions C16_parse_result_shape.
+
+(* an address without ':' has no scheme: invalid-address (or a url.Parse error) *)
+Theorem C16_parse_missing_scheme : forall a : bytes, ~ In 58 a ->
+  parse_proto_addr a = PErr EInvalid \/ parse_proto_addr a = PErr EUrl.
+Proof. exact parse_no_colon. Qed.
+Print Assumptions C16_parse_missing_scheme.
+
+(* endpoint exactly as written, widest form: any scheme spelling whose lower
+   case is one of the six inet schemes, any non-empty host[:port] made of bytes
+   url.Parse accepts literally in a host (all non-ASCII bytes, alphanumerics,
+   -._~ !$&'()*+,;= :[]<> double-quote, and '%' anywhere) with an optional :digits after
+   the last ']' (bracketed) or the last ':' (otherwise) *)
+Theorem C16_parse_exact_inet : forall s h : bytes,
+  In (lower s) inet_schemes -> host_ok h = true ->
+  parse_proto_addr (s ++ [58; 47; 47] ++ h) = POk (lower s) h.
+Proof. exact parse_exact_inet. Qed.
+Print Assumptions C16_parse_exact_inet.
+
+(* the grammar of the statement is inside host_ok:
+   reg-name | IPv4 | [ IPv6 [ % zone ] ] , optional : port *)
+Theorem C16_grammar_in_host_ok : forall h : bytes, grammar_hostb h = true -> host_ok h = true.
+Proof. exact grammar_host_ok. Qed.
+Print Assumptions C16_grammar_in_host_ok.
+
+Theorem C16_parse_exact_inet_grammar : forall s h : bytes,
+  In (lower s) inet_schemes -> grammar_hostb h = true ->
+  parse_proto_addr (s ++ [58; 47; 47] ++ h) = POk (lower s) h.
+Proof. exact parse_exact_inet_grammar. Qed.
+Print Assumptions C16_parse_exact_inet_grammar.
+
+(* empty endpoint or a path on tcp*/udp*: the invalid-address error *)
+Theorem C16_parse_inet_invalid : forall s h p : bytes,
+  In (lower s) inet_schemes -> host_ok0 h = true -> path_ok p = true ->
+  h = [] \/ p <> [] ->
+  parse_proto_addr (s ++ [58; 47; 47] ++ h ++ p) = PErr EInvalid.
+Proof. exact parse_inet_invalid. Qed.
+Print Assumptions C16_parse_inet_invalid.
+
+(* unix: the cleaned path *)
+Theorem C16_parse_unix_clean : forall s h p : bytes,
+  lower s = s_unix -> host_ok0 h = true -> path_ok p = true ->
+  parse_proto_addr (s ++ [58; 47; 47] ++ h ++ p) =
+  if is_nil h && is_nil p then PErr EInvalid else POk s_unix (path_join h p).
+Proof. exact parse_unix_clean. Qed.
+Print Assumptions C16_parse_unix_clean.
+
+Theorem C16_parse_unix_clean_concat : forall s h p : bytes,
+  lower s = s_unix -> host_ok0 h = true -> path_ok p = true -> h ++ p <> [] ->
+  parse_proto_addr (s ++ [58; 47; 47] ++ h ++ p) = POk s_unix (path_clean (h ++ p)).
+Proof. exact parse_unix_clean_concat. Qed.
+Print Assumptions C16_parse_unix_clean_concat.
+
+Theorem C16_path_clean_nonempty : forall p : bytes, path_clean p <> [].
+Proof. exact path_clean_nonempty. Qed.
+Print Assumptions C16_path_clean_nonempty.
+
+(* any other well-formed scheme: the unsupported-protocol error *)
+Theorem C16_parse_unsupported : forall s h p : bytes,
+  scheme_ok s = true -> ~ In (lower s) (s_unix :: inet_schemes) ->
+  host_ok0 h = true -> path_ok p = true ->
+  parse_proto_addr (s ++ [58; 47; 47] ++ h ++ p) = PErr EUnsupported.
+Proof. exact parse_unsupported. Qed.
+Print Assumptions C16_parse_unsupported.
+
+(* Read/WriteBufferCap: partial — the request must not exceed 2^62 (above it no
+   int power of two exists and the code panics: C16_cap_normalised_refuted) *)
+Theorem C16_cap_normalised_partial : forall req,
+  -9223372036854775808 <= req < 9223372036854775808 -> req <= 4611686018427387904 ->
+  exists r, norm_cap 65536 req = Ret r /\
+    (exists k, 0 <= k /\ r = 2^k) /\ req <= r /\ 1024 <= r /\
+    (req <= 0 -> r = 65536) /\
+    (0 < req -> forall j, 0 <= j -> Z.max req 1024 <= 2^j -> r <= 2^j).
+Proof. exact cap_normalised_partial. Qed.
+Print Assumptions C16_cap_normalised_partial.
+
+Theorem C16_cap_normalised_refuted :
+  exists req, (-9223372036854775808 <= req < 9223372036854775808) /\ norm_cap 65536 req = Panic.
+Proof. exact cap_normalised_refuted. Qed.
+Print Assumptions C16_cap_normalised_refuted.
+
+Theorem C16_cap_full_statement_false : ~ cap_normalised_full_statement.
+Proof. exact cap_normalised_full_statement_false. Qed.
+Print Assumptions C16_cap_full_statement_false.
+
+Theorem C16_cap_panics_above : forall req,
+  -9223372036854775808 <= req < 9223372036854775808 -> 4611686018427387904 < req ->
+  norm_cap 65536 req = Panic.
+Proof. exact cap_panics_above. Qed.
+Print Assumptions C16_cap_panics_above.
+
+(* EdgeTriggeredIOChunk, same bound *)
+Theorem C16_chunk_normalised_partial : forall chunk et,
+  -9223372036854775808 <= chunk < 9223372036854775808 -> chunk <= 4611686018427387904 ->
+  (0 < chunk -> exists r, norm_chunk chunk et = Ret (r, true) /\
+                          (exists k, 0 <= k /\ r = 2^k) /\ chunk <= r /\
+                          forall j, 0 <= j -> Z.max chunk 2 <= 2^j -> r <= 2^j) /\
+  (chunk <= 0 -> et = true -> norm_chunk chunk et = Ret (1048576, true)) /\
+  (chunk <= 0 -> et = false -> norm_chunk chunk et = Ret (chunk, false)).
+Proof. exact chunk_normalised_partial. Qed.
+Print Assumptions C16_chunk_normalised_partial.
+
+Theorem C16_chunk_panics_above : forall chunk et,
+  -9223372036854775808 <= chunk < 9223372036854775808 -> 4611686018427387904 < chunk ->
+  norm_chunk chunk et = Panic.
+Proof. exact chunk_panics_above. Qed.
+Print Assumptions C16_chunk_panics_above.
+
+(* the three options together, in source order *)
+Theorem C16_normalise_ok : forall rbc wbc chunk et,
+  -9223372036854775808 <= rbc < 9223372036854775808 ->
+  -9223372036854775808 <= wbc < 9223372036854775808 ->
+  -9223372036854775808 <= chunk < 9223372036854775808 ->
+  rbc <= 4611686018427387904 -> wbc <= 4611686018427387904 -> chunk <= 4611686018427387904 ->
+  exists r w c e, normalise 65536 rbc wbc chunk et = Ret (r, w, c, e) /\
+    norm_cap 65536 rbc = Ret r /\ norm_cap 65536 wbc = Ret w /\ norm_chunk chunk et = Ret (c, e).
+Proof. exact normalise_ok. Qed.
+Print Assumptions C16_normalise_ok.
+
+(* number of event loops: 1..256 according to Multicore / NumEventLoop *)
+Theorem C16_loops_clamped : forall numcpu multicore n, 1 <= numcpu ->
+  let r := determine_event_loops numcpu multicore n in
+  1 <= r <= 256 /\
+  (0 < n -> r = Z.min n 256) /\
+  (n <= 0 -> multicore = true -> r = Z.min numcpu 256) /\
+  (n <= 0 -> multicore = false -> r = 1).
+Proof. exact loops_clamped. Qed.
+Print Assumptions C16_loops_clamped.
+
+(* ---- non-vacuity: concrete instances, evaluated by the kernel ---- *)
+(* udp://[ff02::3%lo0]:9991  (the example in gnet.go) *)
+Example C16_ex_zone :
+  grammar_hostb [91;102;102;48;50;58;58;51;37;108;111;48;93;58;57;57;57;49] = true /\
+  parse_proto_addr ([117;100;112] ++ [58;47;47] ++ [91;102;102;48;50;58;58;51;37;108;111;48;93;58;57;57;57;49])
+  = POk s_udp [91;102;102;48;50;58;58;51;37;108;111;48;93;58;57;57;57;49].
+Proof. split; vm_compute; reflexivity. Qed.
+(* TCP6://[fe80::1%25%2525]:80 : zone made of '%', digits and 25 *)
+Example C16_ex_zone_pct :
+  grammar_hostb [91;102;101;56;48;58;58;49;37;50;53;37;50;53;50;53;93;58;56;48] = true /\
+  In (lower [84;67;80;54]) inet_schemes /\
+  parse_proto_addr ([84;67;80;54] ++ [58;47;47] ++ [91;102;101;56;48;58;58;49;37;50;53;37;50;53;50;53;93;58;56;48])
+  = POk s_tcp6 [91;102;101;56;48;58;58;49;37;50;53;37;50;53;50;53;93;58;56;48].
+Proof. split; [|split]; vm_compute; auto 10. Qed.
+(* tcp://a%41b:80 : '%' outside a zone also survives (host_ok, not in the grammar) *)
+Example C16_ex_pct_host :
+  host_ok [97;37;52;49;98;58;56;48] = true /\ grammar_hostb [97;37;52;49;98;58;56;48] = false /\
+  parse_proto_addr ([116;99;112] ++ [58;47;47] ++ [97;37;52;49;98;58;56;48]) = POk s_tcp [97;37;52;49;98;58;56;48].
+Proof. repeat split; vm_compute; reflexivity. Qed.
+(* unix://tmp/../a//b/./c/ -> a/b/c ; unix:/// -> / ; unix:// -> invalid *)
+Example C16_ex_unix :
+  host_ok0 [116;109;112] = true /\ path_ok [47;46;46;47;97;47;47;98;47;46;47;99;47] = true /\
+  parse_proto_addr (s_unix ++ [58;47;47] ++ [116;109;112] ++ [47;46;46;47;97;47;47;98;47;46;47;99;47])
+  = POk s_unix [97;47;98;47;99] /\
+  parse_proto_addr (s_unix ++ [58;47;47] ++ [] ++ [47]) = POk s_unix [47] /\
+  parse_proto_addr (s_unix ++ [58;47;47] ++ [] ++ []) = PErr EInvalid.
+Proof. repeat split; vm_compute; reflexivity. Qed.
+(* tcp://h:80/x invalid; http://h unsupported; host:80 unsupported (scheme = host);
+   127.0.0.1:80 url error; localhost invalid *)
+Example C16_ex_errors :
+  parse_proto_addr [116;99;112;58;47;47;104;58;56;48;47;120] = PErr EInvalid /\
+  parse_proto_addr [104;116;116;112;58;47;47;104] = PErr EUnsupported /\
+  parse_proto_addr [104;111;115;116;58;56;48] = PErr EUnsupported /\
+  parse_proto_addr [49;50;55;46;48;46;48;46;49;58;56;48] = PErr EUrl /\
+  parse_proto_addr [108;111;99;97;108;104;111;115;116] = PErr EInvalid.
+Proof. repeat split; vm_compute; reflexivity. Qed.
+Example C16_ex_norm :
+  normalise 65536 0 1025 3 false = Ret (65536, 2048, 4, true) /\
+  normalise 65536 1 1024 0 true = Ret (1024, 1024, 1048576, true) /\
+  normalise 65536 (-5) 65537 (-1) false = Ret (65536, 131072, -1, false) /\
+  normalise 65536 4611686018427387905 0 0 false = Panic /\
+  determine_event_loops 16 true 0 = 16 /\ determine_event_loops 16 true 1000 = 256 /\
+  determine_event_loops 1024 true (-1) = 256 /\ determine_event_loops 16 false 0 = 1.
+Proof. repeat split; vm_compute; reflexivity. Qed.
